@@ -44,6 +44,9 @@ def compress_case(ctx, idx, rng):
         L -= 1
     kind = ('product', 'random', 'flat', 'staircase', 'decaying', 'over', 'sectors')[idx % 7]
     psi = make_state(rng, kind, L, d)
+    if idx % 9 == 4 and kind in ('random', 'over', 'sectors'):
+        # tensors rescaled to LOOK canonical (Frobenius norm^2 = bond dimension, or unit-norm slices) without being isometries
+        kind = kind + '+' + gen.pseudo_canonical(rng, psi)
     L = psi.nsites
     d = len(psi.qd)
     v0 = refs.dense_state(psi.A)
